@@ -42,7 +42,7 @@ fn expect_single_response(rx: &vmpsc::UnboundedReceiver<HandlerIn>, idb: [u8; 2]
 }
 
 #[kani::proof]
-#[kani::unwind(5)]
+#[kani::unwind(2)]
 fn c20_respond_sends_exactly_one() {
     let (req, rx, idb, node_id, addr) = any_talk();
     let payload: [u8; 3] = kani::any();
@@ -54,7 +54,7 @@ fn c20_respond_sends_exactly_one() {
 }
 
 #[kani::proof]
-#[kani::unwind(5)]
+#[kani::unwind(2)]
 fn c20_drop_sends_exactly_one_empty() {
     let (req, rx, idb, node_id, addr) = any_talk();
     drop(req);
@@ -64,7 +64,7 @@ fn c20_drop_sends_exactly_one_empty() {
 }
 
 #[kani::proof]
-#[kani::unwind(5)]
+#[kani::unwind(2)]
 fn c20_after_shutdown_is_harmless() {
     let (req, rx, _idb, _node_id, _addr) = any_talk();
     let (req2, rx2, _i2, _n2, _a2) = any_talk();
@@ -77,7 +77,7 @@ fn c20_after_shutdown_is_harmless() {
 }
 
 #[kani::proof]
-#[kani::unwind(5)]
+#[kani::unwind(2)]
 fn c20_accessors() {
     let (req, rx, idb, node_id, _addr) = any_talk();
     assert!(req.id().0[..] == idb[..] && *req.node_id() == node_id);
@@ -87,7 +87,7 @@ fn c20_accessors() {
 }
 
 #[kani::proof]
-#[kani::unwind(5)]
+#[kani::unwind(2)]
 fn c20_twin_must_fail() {
     let (req, rx, idb, node_id, addr) = any_talk();
     drop(req);
